@@ -1115,12 +1115,80 @@ def neighbours(space, req):
                 yield s2, r2
 
 
+# The implementation side of the big streams runs in a small pool of worker processes (forked before anything is
+# sampled in the main process).  No randomness in the workers; the results come back in the order of the inputs.
+_POOL = None
+POOL_SIZE = 4
+
+
+def start_pool() -> None:
+    global _POOL
+    if _POOL is None and os.environ.get("C14_NO_POOL") != "1":
+        import multiprocessing as mp
+
+        tmp_dir()  # one scratch directory, created (and removed at exit) by the main process
+        _POOL = mp.get_context("fork").Pool(POOL_SIZE)
+
+
+def stop_pool() -> None:
+    global _POOL
+    if _POOL is not None:
+        _POOL.terminate()
+        _POOL.join()
+        _POOL = None
+
+
+def pool_map(fn, items: list) -> list:
+    if _POOL is None or len(items) < 2 * POOL_SIZE:
+        return [fn(it) for it in items]
+    return _POOL.map(fn, items, chunksize=max(1, min(8, len(items) // (4 * POOL_SIZE))))
+
+
+def _impl_job(args) -> dict[str, Any]:
+    """run_impl in a worker: an exception is returned (with where it was raised), not raised."""
+    import traceback
+
+    space, req = args
+    try:
+        return run_impl(space, req, parallel=bool(req.get("parallel")))
+    except Exception as e:  # noqa: BLE001
+        frames = traceback.extract_tb(e.__traceback__)
+        return {"__raised__": {
+            "exception": repr(e), "in_impl": any("/gemseo/" in f.filename for f in frames),
+            "where": next((f"{f.filename.split('/gemseo/')[-1]}:{f.lineno}" for f in reversed(frames) if "/gemseo/" in f.filename), "?"),
+            "traceback": traceback.format_exc()[-2500:]}}
+
+
+def run_impl_many(cases: list[tuple[dict, dict]]) -> list[dict[str, Any]]:
+    """Observations of the cases; those that execute with n_processes=2 stay in the main process (a pool worker
+    may not have children)."""
+    pooled = [k for k, (_, rq) in enumerate(cases) if not rq.get("parallel")]
+    out: list[Any] = [None] * len(cases)
+    for k, obs in zip(pooled, pool_map(_impl_job, [cases[k] for k in pooled])):
+        out[k] = obs
+    for k, case in enumerate(cases):
+        if out[k] is None:
+            out[k] = _impl_job(case)
+    return out
+
+
 def check_batch(res: Result, batch: list[tuple[dict, dict, str]], in_scope: bool) -> None:
     """batch: [(space, req, stream)].  Runs the implementation, the model, the oracle."""
     prepared = []
     all_lines: list[str] = []
-    for space, req, stream in batch:
-        obs = run_impl(space, req, parallel=bool(req.get("parallel")))
+    observations = run_impl_many([(space, req) for space, req, _ in batch])
+    for (space, req, stream), obs in zip(batch, observations):
+        if "__raised__" in obs:
+            r = obs["__raised__"]
+            if not r["in_impl"]:
+                raise RuntimeError("harness error in a worker: " + r["traceback"])
+            res.evaluations += 1
+            res.violate("correspondence", "implementation-raises:run_impl",
+                        f"{req['algo']}: the implementation raised {r['exception']} at {r['where']} outside the calls the "
+                        "harness guards, on an input for which the model returns an answer",
+                        {"space": space, "request": req, "stream": stream, "exception": r["exception"], "where": r["where"],
+                         "traceback": r["traceback"]})
+            continue
         lines = case_lines(space, req, obs)
         prepared.append((space, req, stream, obs, lines, len(all_lines)))
         all_lines.extend(ln for _, ln, _ in lines)
@@ -1207,8 +1275,8 @@ def check_batch(res: Result, batch: list[tuple[dict, dict, str]], in_scope: bool
 def gen_request(rng: common.Rng, algo: str, space, n: int, seed) -> dict[str, Any]:
     req = {"algo": algo, "n": n, "seed": seed if ALGOS[algo]["seed"] is not None else None, "opts": {}}
     req["opts"] = gen_opts(rng, algo, space, n)
-    if rng.chance(0.08):
-        req["parallel"] = True  # also execute with n_processes=2
+    if rng.chance(0.03):
+        req["parallel"] = True  # also execute with n_processes=2 (in the main process: ~0.2 s per case; C13 owns that path)
     return req
 
 
@@ -1236,11 +1304,11 @@ def product_stream(ctx, res: Result) -> None:
                         seed = pick_seed(rng, algo) if (si == 0 or rng.chance(0.7)) else None
                         req = gen_request(rng, algo, space, n, seed)
                         (batch_in if meta.get("scope", "in") == "in" else batch_probe).append((space, req, stream))
-        for i in range(0, len(batch_in), 120):
+        for i in range(0, len(batch_in), 450):  # one call of the Lean driver costs ~3 s whatever its size
             if time.time() > ctx.deadline:
                 res.notes.append("deadline reached in the product stream")
                 return
-            check_batch(res, batch_in[i:i + 120], True)
+            check_batch(res, batch_in[i:i + 450], True)
         check_batch(res, batch_probe, False)
 
 
@@ -1712,6 +1780,7 @@ def run(ctx) -> Result:
     from harness import c14_proc
     from harness import c14_session
 
+    start_pool()  # worker processes of the implementation side, forked before anything is sampled here
     c14_proc.SERVER.start()  # fork server of pristine processes: its import of GEMSEO overlaps with the first streams
     res.assumptions.append(
         "process histories: every history runs in a child of a fork server that has imported GEMSEO and the DOE "
@@ -1721,6 +1790,9 @@ def run(ctx) -> Result:
         "sessions: edits keep the design space bounded and non-empty, the current value inside the bounds (a `setval` "
         "follows every execute, which stores the best point as current value); the unit samples fed to the model for a "
         "compute_doe of a session are those of a fresh library on a fresh design space with the effective seed made explicit")
+    import time
+
+    walls: list[str] = []
     for c in load_corpus():
         if "space" in c and "request" in c:
             check_batch(res, [(c["space"], c["request"], c.get("stream", "corpus"))], c.get("in_scope", True))
@@ -1733,7 +1805,11 @@ def run(ctx) -> Result:
             res.count("corpus")
     for stream in (view_stream, seeder_stream, count_stream, own_designs_stream, library_seed_stream, probe_stream,
                    custom_stream, c14_proc.prochist_stream, c14_session.session_stream, product_stream):
+        t0 = time.time()
         guarded(stream, ctx, res)
+        walls.append(f"{stream.__name__} {time.time() - t0:.0f} s")
+    stop_pool()
+    res.notes.append("wall per stream: " + ", ".join(walls))
     return res
 
 
